@@ -181,7 +181,7 @@ Fixpoint span_digits (s : str) : str * str :=
 Definition take_nsidx (s : str) : option (str * str) :=
   let '(d, r) := span_digits s in
   match d, r with
-  | _ :: _, 58 :: r' => Some (d, r')
+  | _ :: _, c :: r' => if c =? 58 then Some (d, r') else None
   | _, _ => None
   end.
 
@@ -221,8 +221,8 @@ Fixpoint span_units (s : str) : str * str :=
 Definition name_rest (pre t : str) : option (str * str) :=
   let '(m, r) := span_units t in
   match r with
-  | 62 :: r' => Some (pre ++ m, r')
-  | _ => None
+  | c :: r' => if c =? 62 then Some (pre ++ m, r') else None
+  | [] => None
   end.
 
 (* the name group followed by the closing bracket, at the start of s: the first unit may not be
@@ -249,21 +249,23 @@ Fixpoint strip_prefix (p s : str) : option str :=
 
 (* one way through the bracket alternative after its opening bracket: flags group present with the
    given text or absent, nsidx group present or absent *)
+Definition match_after_flags (fl : option str) (wantns : bool) (t1 : str) : option caps :=
+  match (if wantns then
+           match take_nsidx t1 with Some (d, r) => Some (Some d, r) | None => None end
+         else Some (None, t1)) with
+  | None => None
+  | Some (ns, t2) =>
+      match take_name t2 with
+      | None => None
+      | Some (nm, tg) => Some (mk_caps 60 fl ns (Some nm) tg)
+      end
+  end.
+
 Definition match_bracket (alt : option str * bool) (t : str) : option caps :=
   let '(fl, wantns) := alt in
   match (match fl with Some f => strip_prefix f t | None => Some t end) with
   | None => None
-  | Some t1 =>
-      match (if wantns then
-               match take_nsidx t1 with Some (d, r) => Some (Some d, r) | None => None end
-             else Some (None, t1)) with
-      | None => None
-      | Some (ns, t2) =>
-          match take_name t2 with
-          | None => None
-          | Some (nm, tg) => Some (mk_caps 60 fl ns (Some nm) tg)
-          end
-      end
+  | Some t1 => match_after_flags fl wantns t1
   end.
 
 (* the order in which a backtracking matcher explores the optional groups:
@@ -405,7 +407,7 @@ Module Legacy.
 
   Definition take_nsidx1 (s : str) : option (str * str) :=   (* one character out of 0-9 and +, then a colon *)
     match s with
-    | c :: 58 :: r => if is_digit c || (c =? 43) then Some ([c], r) else None
+    | c :: k :: r => if (k =? 58) && (is_digit c || (c =? 43)) then Some ([c], r) else None
     | _ => None
     end.
 
